@@ -76,6 +76,26 @@ func subspaceWithTable(ss paramstypes.Subspace, tbl paramstypes.KeyTable) params
 	return ss
 }
 
+// legacyMinterConfig writes a minter configuration in the format of consensus version 2 (x/params).
+func legacyMinterConfig(mp mintertypes.Params) mintertypes.MinterConfig {
+	legacy := mintertypes.MinterConfig{StartTime: mp.StartTime}
+	for _, m := range mp.Minters {
+		lm := &mintertypes.LegacyMinter{SequenceId: m.SequenceId, EndTime: m.EndTime}
+		switch c := m.Config.GetCachedValue().(type) {
+		case *mintertypes.LinearMinting:
+			lm.Type = mintertypes.LinearMintingType
+			lm.LinearMinting = c
+		case *mintertypes.ExponentialStepMinting:
+			lm.Type = mintertypes.ExponentialStepMintingType
+			lm.ExponentialStepMinting = c
+		default:
+			lm.Type = "NO_MINTING"
+		}
+		legacy.Minters = append(legacy.Minters, lm)
+	}
+	return legacy
+}
+
 func TestC16(t *testing.T) {
 	st := StatsFor("C16")
 	rapid.Check(t, func(t *rapid.T) {
@@ -271,21 +291,7 @@ func runC16(t *rapid.T, st *Stats, v *VestWorld, viaHandler bool, determinismOnl
 		ssV.Set(ctx, vestingtypes.KeyDenom, vestingDenom)
 		mcfg := GenMinterCfg(t, 4, 40, 30)
 		mp, _ := mcfg.Build()
-		legacy := mintertypes.MinterConfig{StartTime: mp.StartTime}
-		for i, m := range mp.Minters {
-			lm := &mintertypes.LegacyMinter{SequenceId: m.SequenceId, EndTime: m.EndTime}
-			switch mcfg.PeriodAt(i).Kind {
-			case "none":
-				lm.Type = "NO_MINTING"
-			case "linear":
-				lm.Type = mintertypes.LinearMintingType
-				lm.LinearMinting = m.Config.GetCachedValue().(*mintertypes.LinearMinting)
-			case "exp":
-				lm.Type = mintertypes.ExponentialStepMintingType
-				lm.ExponentialStepMinting = m.Config.GetCachedValue().(*mintertypes.ExponentialStepMinting)
-			}
-			legacy.Minters = append(legacy.Minters, lm)
-		}
+		legacy := legacyMinterConfig(mp)
 		invalidLegacyMinter := !viaHandler && rapid.IntRange(0, 4).Draw(t, "invalidLegacyMinter") == 0
 		if invalidLegacyMinter {
 			e := mp.StartTime.Add(50 * 365 * 24 * time.Hour)
